@@ -423,6 +423,7 @@ static void on_callback(int slot, int b)
 		if (israw) { raw_menu(g->data, g->len); nsec = 0; } else { build_menu(g->data, g->len, de); find_second_items(); }
 		for (int i = cur_part; i < nmenu + (israw ? 0 : NPRE + NTRAIN + NPAIRFIRST * nsec); i += NPART) {
 			if (getenv("C06_FILTER") && (i >= nmenu || !strstr(MENU[i].desc, getenv("C06_FILTER")))) continue;      /* debugging aid: only matching menu items */
+			if (getenv("C06_DUMP") && i < nmenu) { FILE *f = fopen(getenv("C06_DUMP"), "wb"); if (f) { fwrite(MENU[i].d, 1, MENU[i].len, f); fclose(f); } char tn[300]; snprintf(tn, sizeof tn, "%s.txt", getenv("C06_DUMP")); FILE *g = fopen(tn, "a"); if (g) { fprintf(g, "job %d cell %d part %d: item %d at answer %d: %s (%d bytes)\n", XC.job, cur_cell, cur_part, i, answer_no, MENU[i].desc, MENU[i].len); fclose(g); } }
 			if (xp_fork_wait() != 0) continue;
 			/* child */
 			in_child = 1;
